@@ -239,7 +239,7 @@ pub fn c11(opts: &Opts) -> Report {
                 3 => (wrap(format!("quote:{e}")), Some(format!("{s}{x}{s}")), Op::Surround(s.clone())),
                 4 => (wrap(format!("split:,:..|join:{e}")), None, Op::Join(s.clone())),
                 5 => (wrap(format!("split:{e}:..|join:,")), None, Op::Split(s.clone(), Range::Range(None, None, false))),
-                6 => (wrap(format!("trim:{e}:both")), None, Op::Trim(s.clone(), TDir::Both)),
+                6 => (wrap(format!("trim:{e}:both")), None, Op::Trim(s.clone(), TDir::Both)),   // user-level identity checked below
                 _ => { let c = s.chars().next().unwrap_or(' '); (wrap(format!("pad:3:{}:left", esc(&c.to_string()))), None, Op::Pad(3, c, PDir::Left)) }
             };
             if x.contains('\n') && in_map { return; }
@@ -280,6 +280,22 @@ pub fn c11(opts: &Opts) -> Report {
                 real::Parsed::Panic => { viol(ctx, "property", format!("C11: parsing {text:?} panics"), vec![("template", text.clone()), ("theorem", "C03_parse_total".into())]); return; }
             }
             if !parse_agree(ctx, "C11", &text).0 { return; }
+            // trim: every character of the argument is in the set, exactly as written (white space at the edges of the
+            // argument included): s ++ core ++ s trims to core when core shares no character with s
+            if which == 6 && !s.trim().is_empty() && !in_map {
+                let core = "0core0";
+                if !s.chars().any(|c| core.contains(c)) {
+                    let xin = format!("{s}{core}{s}");
+                    let want = if mixed { format!("<{core}>") } else { core.to_string() };
+                    let got = real::parse_format(&text, &xin);
+                    if got != Out::Ok(want.clone()) {
+                        viol(ctx, "property", format!("C11: format({text:?}, {xin:?}) = {} but every character of the argument {s:?} is in the trim set: expected {want:?}", got.show()),
+                             vec![("template", text.clone()), ("input", xin), ("observed", got.show()), ("expected", format!("{want:?}")), ("theorem", "C11_escape_roundtrip".into())]);
+                        return;
+                    }
+                    ctx.rep.bump("trim_user_level_checks");
+                }
+            }
             if i < 3 { ctx.rep.sample(format!("{text} with argument {s:?}")); }
         })
 }
